@@ -12,25 +12,25 @@ MAX_CHUNK = 48
 N_IT = {"quick": 6, "thorough": 12}
 ORIGINS = ["update-nn", "update-eq", "grad-nn", "grad-eq", "loss-data", "loss-domain"]
 KINDS = ["nan", "inf"]
-N_PROG = {"quick": 10, "thorough": 150}
+N_PROG = {"quick": 10, "thorough": 60}
 
 
 def _F(tier):
     return N_IT[tier] * len(ORIGINS) * len(KINDS)
 
 
-N_DOUBLE = {"quick": 48, "thorough": 3000}  # fault SEQUENCES: two faults in one run
+N_DOUBLE = {"quick": 48, "thorough": 1000}  # fault SEQUENCES: two faults in one run
 TIERS = {t: N_PROG[t] * _F(t) + N_DOUBLE[t] for t in ("quick", "thorough")}
 
 RULE = (
     "fault enumeration: for each of P sampled training programs (equation kind x optimizer x tracked spec x loop driver; "
-    "horizon n = 6 quick / 12 thorough; P = 10 quick / 150 thorough) a single fault is injected at EVERY iteration k in [0,n) "
+    "horizon n = 6 quick / 12 thorough; P = 10 quick / 60 thorough) a single fault is injected at EVERY iteration k in [0,n) "
     "from EVERY origin {optimizer update of a network leaf, update of an equation parameter, gradient of a network leaf, "
     "gradient of an equation parameter, loss value through a poisoned observation row (row k), loss value through the "
     "equation's domain (log of a parameter driven below 0; k varies the step size)} and of EVERY kind {NaN, +Inf}. +Inf makes "
     "a parameter infinite, not NaN, so the NaN may arise one or more iterations later: the reference loop applies the "
     "property's own rule (abort when a NaN appears in the parameters). Non-trivial = the reference saw a NaN parameter "
-    "(the fault fired); distinct = distinct (program, origin, kind, failing iteration). In addition 48 (quick) / 3000 (thorough) "
+    "(the fault fired); distinct = distinct (program, origin, kind, failing iteration). In addition 48 (quick) / 1000 (thorough) "
     "runs inject a SEQUENCE of two faults (any two of the four optimizer-side origins, values NaN/+Inf/-Inf, k1 <= k2) into a fresh random program."
 )
 STATE_MEASURE = "(equation kind, optimizer kind, driver, fault origin, fault kind, failing position in {none, first, interior, last})"
